@@ -268,7 +268,7 @@ class Sink:
 
 
 class Analysis:
-    def __init__(self, body, max_iter=40, assume=(), requires=None, summaries=None, posts=None):
+    def __init__(self, body, max_iter=40, assume=(), requires=None, summaries=None, posts=None, given=()):
         self.b = body
         self.ret_taints = (posts or {}).get("ret_taints", {})
         self.pos_info = {}
@@ -280,6 +280,7 @@ class Analysis:
         self.post_ty = (posts or {}).get("ty", {})
         self.summaries = summaries or {}
         self.assume = list(assume)
+        self.given = list(given)     # facts that hold at entry unconditionally (item lengths of chunks_exact / chunks closures)
         self.requires = requires or {}
         self._ovf = {}
         self.minmax = {}
@@ -1326,7 +1327,7 @@ class Analysis:
             if INT.match(self.ty(i)) or self.is_slice_ref(i) or re.match(r"^&", self.ty(i)):
                 entry.env[i] = Lin.atom(a)
                 self.atom_src[a] = ("param", b.local_name(i) or str(i))
-        entry.facts = frozenset(self.assume)
+        entry.facts = frozenset(self.assume) | frozenset(self.given)
         edge_out = {}   # (src, dst) -> State
         self.in_state = {0: entry}
         work = [0]
@@ -1492,6 +1493,45 @@ class Analysis:
         return out
 
 
+def closure_item_facts(prog, b):
+    """a closure handed to an adaptor over `slice.chunks_exact(n)` / `slice.chunks(n)` (n constant) receives items of length == n / <= n: entry facts about
+    its slice parameters. Found from the parent body: the call that takes this closure has a receiver whose type mentions ChunksExact / Chunks, and the
+    parent creates exactly one such iterator with a constant size."""
+    if not b.root or not b.parent or b.parent not in prog.bodies or b.coroutine:
+        return []
+    pb = prog.bodies[b.parent]
+    tag = "%s:%d:" % (b.file, b.lines[0])
+    kind = None
+    for blk in pb.blocks:
+        t = blk["t"]
+        if t["k"] != "Call":
+            continue
+        at = t.get("at", [])
+        if len(at) >= 2 and any(("{closure@" in x and tag in x) for x in at[1:]):
+            if "ChunksExact<" in at[0]:
+                kind = "exact"
+            elif re.search(r"\bChunks<", at[0]):
+                kind = "upto"
+    if kind is None:
+        return []
+    sizes = []
+    for c in pb.calls:
+        if re.search(r"core::slice::<impl \[T\]>::chunks_exact$" if kind == "exact" else r"core::slice::<impl \[T\]>::chunks$", c.name) and len(c.args) == 2:
+            v = op_const(c.args[1])
+            sizes.append(int(v) if v is not None else None)
+    if len(sizes) != 1 or sizes[0] is None:
+        return []
+    n = sizes[0]
+    out = []
+    for k in range(2, b.argc + 1):
+        if re.match(r"^&(mut )?\[", b.local_ty(k) or ""):
+            ln = ("len", ("arg", k))
+            out.append(Lin(-n, {ln: 1}))           # len <= n
+            if kind == "exact":
+                out.append(Lin(n, {ln: -1}))       # n <= len
+    return out
+
+
 def candidate_hyps(b):
     """hypotheses about the parameters that a helper may rely on: int_param <= len(slice_param)"""
     ints = [i for i in range(1, b.argc + 1) if UNSIGNED.match(b.local_ty(i) or "")]
@@ -1541,7 +1581,8 @@ def analyse_closure(prog, cl, rounds=4, krate_prefix="cascette_"):
                 continue
             if dirty is not None and bid not in dirty:
                 continue
-            a0 = Analysis(b, requires=requires, summaries=summaries, posts=posts)
+            given_ = closure_item_facts(prog, b)
+            a0 = Analysis(b, requires=requires, summaries=summaries, posts=posts, given=given_)
             results[bid] = a0
             rt_ = {t_ for t_ in a0.ret_taint if t_ == "input" or t_.startswith("field:cascette_")}
             if rt_ and posts["ret_taints"].get(bid) != rt_ and not b.root:
@@ -1574,7 +1615,7 @@ def analyse_closure(prog, cl, rounds=4, krate_prefix="cascette_"):
                 rest = [sk for sk in unp if not sk.delegated and sk.kind not in ("overflow", "divzero")]
                 hyps = candidate_hyps(b)
                 if rest and hyps:
-                    a1 = Analysis(b, assume=hyps, requires=requires, summaries=summaries, posts=posts)
+                    a1 = Analysis(b, assume=hyps, requires=requires, summaries=summaries, posts=posts, given=given_)
                     if len(a1.sinks) == len(a0.sinks):
                         for s0, s1 in zip(a0.sinks, a1.sinks):
                             if s0.kind in ("overflow", "divzero"):
